@@ -12,7 +12,8 @@ RULE = ("cases = runs of the REAL MeshEdgebreakerDecoderImpl<TD>::DecodeConnecti
         "L/R/E->S split event, mutations of the valid scripts (symbols, events, bits, declared counts), random scripts, valid prefixes cut at a random point and extended by hostile symbols chosen (with the real decoder as oracle) so that the symbol loop stays alive, vertex-budget overflow scripts; about a "
         "quarter go through the real header parser (also with num_attribute_data = 1..3 and hostile attribute-seam bits: kind fulla compares the corner table, kind apc compares AssignPointsToCorners' deduplication result - num_points and all face indices - with the model, given the attribute corner tables the real decoder built) DecodeConnectivity() (kind full), the rest call DecodeConnectivity(int) on a fresh "
         "table with arbitrary event lists (kind core).  Each script runs in a forked child with a 20 s watchdog: crash / sanitizer "
-        "report / hang / accepted-but-invalid table are '!' lines.  A case is distinct by its text; non-trivial = accepted")
+        "report / hang / accepted-but-invalid table (ids, Opposite involution, left-most corners, and: EVERY pair of opposite corners - symbol "
+        "faces and, since the guard Vertex(Previous(corner_a)) == vert_p of /repo a3a73f7, interior start faces - shares its edge) are '!' lines.  A case is distinct by its text; non-trivial = accepted")
 
 def corr_runs(ctx):
     env = {"ASAN_OPTIONS": "detect_leaks=0:allocator_may_return_null=1:abort_on_error=1",
